@@ -44,6 +44,7 @@ pub static CANON: std::sync::atomic::AtomicBool = std::sync::atomic::AtomicBool:
 
 pub fn canon_scenario(name: &str) -> bool {
     let name = name.strip_prefix("long_").unwrap_or(name);
+    let name = name.strip_prefix("sweep_").unwrap_or(name);
     name.starts_with("c02") || name.starts_with("c18") || name.starts_with("c20")
 }
 
@@ -521,7 +522,20 @@ impl<A: Cx> World<A> {
                 let src = self.regs[gu(op, "r")].as_ref().unwrap();
                 let back: Seq<A> = match gs(op, "fmt") {
                     "json" => serde_json::from_str(&serde_json::to_string(src).unwrap()).unwrap(),
+                    "json_pretty" => serde_json::from_str(&serde_json::to_string_pretty(src).unwrap()).unwrap(),
+                    "json_slice" => serde_json::from_slice(&serde_json::to_vec(src).unwrap()).unwrap(),
+                    "json_value" => serde_json::from_value(serde_json::to_value(src).unwrap()).unwrap(),
+                    "json_reader" => {
+                        let mut buf: Vec<u8> = Vec::new();
+                        serde_json::to_writer(&mut buf, src).unwrap();
+                        serde_json::from_reader(std::io::Cursor::new(buf)).unwrap()
+                    }
                     "bincode" => bincode::deserialize(&bincode::serialize(src).unwrap()).unwrap(),
+                    "bincode_reader" => {
+                        let mut buf: Vec<u8> = Vec::new();
+                        bincode::serialize_into(&mut buf, src).unwrap();
+                        bincode::deserialize_from(std::io::Cursor::new(buf)).unwrap()
+                    }
                     o => panic!("harness: fmt {o}"),
                 };
                 let eq = back == *src && *src == back;
@@ -984,10 +998,32 @@ impl<A: Cx> World<A> {
                 fn consume<T, I: Iterator<Item = T>>(mut it: I, adv: usize, consumer: &str, cap: usize, f: &dyn Fn(T) -> Value) -> Value {
                     for _ in 0..adv {
                         if it.next().is_none() {
-                            break;
+                            // exhausted while advancing: nothing is left for any consumer
+                            return match consumer {
+                                "count" | "overshoot_count" => json!({"count": 0}),
+                                "last" => json!({"some": false}),
+                                _ => json!({"items": []}),
+                            };
                         }
                     }
                     let rest: Vec<Value> = match consumer {
+                        // jump far past the end with nth(): no item may come out, then or afterwards
+                        "overshoot_count" => {
+                            let jumped = it.nth(cap + 64).is_some();
+                            return json!({"count": it.count() + usize::from(jumped)});
+                        }
+                        "overshoot_next" => {
+                            let mut v = Vec::new();
+                            if let Some(x) = it.nth(cap + 7) {
+                                v.push(f(x));
+                            }
+                            for _ in 0..4 {
+                                if let Some(x) = it.next() {
+                                    v.push(f(x));
+                                }
+                            }
+                            v
+                        }
                         "next" => {
                             let mut v = Vec::new();
                             for _ in 0..cap {
@@ -1109,7 +1145,39 @@ impl<A: Cx> World<A> {
                     .as_array()
                     .unwrap()
                     .iter()
-                    .map(|e| (gsyms::<A>(&e["k"]).into_iter().collect::<Seq<A>>(), sym::<Amino>(e["v"].as_u64().unwrap() as u8)))
+                    .map(|e| {
+                        // the key is the same CONTENT however it was produced
+                        let ks: Vec<A> = gsyms::<A>(&e["k"]);
+                        let filler: A = A::items().last().unwrap();
+                        let key: Seq<A> = match e["mk"].as_str().unwrap_or("collect") {
+                            "collect" => ks.iter().copied().collect(),
+                            "truncate" => {
+                                let mut s: Seq<A> = ks.iter().copied().chain((0..9).map(|_| filler)).collect();
+                                s.truncate(ks.len());
+                                s
+                            }
+                            "remove" => {
+                                let mut s: Seq<A> = (0..7).map(|_| filler).chain(ks.iter().copied()).chain((0..5).map(|_| filler)).collect();
+                                s.remove(ks.len() + 7..);
+                                s.remove(..7);
+                                s
+                            }
+                            "offset" => {
+                                let s: Seq<A> = (0..11).map(|_| filler).chain(ks.iter().copied()).chain((0..3).map(|_| filler)).collect();
+                                s[11..11 + ks.len()].to_owned()
+                            }
+                            "clearpush" => {
+                                let mut s: Seq<A> = (0..40).map(|_| filler).collect();
+                                s.clear();
+                                for &x in &ks {
+                                    s.push(x);
+                                }
+                                s
+                            }
+                            o => panic!("harness: mk {o}"),
+                        };
+                        (key, sym::<Amino>(e["v"].as_u64().unwrap() as u8))
+                    })
                     .collect();
                 // every `Into<HashMap<Seq, Amino>>` source
                 let table = match op["via"].as_str().unwrap_or("hashmap") {
